@@ -43,10 +43,10 @@ FLOORS = {'*': {**{f'{k}:{w}': 10 for k in ('openapi', 'openapi30', 'openrpc') f
                 'context:not-first': 20, 'context:positional': 10, 'subsets-dispatched': 3000, 'accepted': 300, 'refused': 1000,
                 'methods': 100, 'twin-registration': 30, 'exclusion:by-name': 30, 'exclusion:default-none': 30, 'exclusion:by-annotation': 30,
                 'validator:base': 100, 'validator:pydantic': 30, 'validator:pydantic:extra-ignore': 30, 'validator:pydantic:extra-allow:as-is': 30,
-                'view:context-name-equals-a-parameter-name': 30, 'style:wrapped': 30, 'style:view-static': 30, 'style:view-class': 30}}
+                'view:context-name-equals-a-parameter-name': 30, 'style:wrapped': 30, 'style:view-static': 30, 'style:view-class': 30, 'signature:variadic': 30, 'signature:nullable': 30}}
 
 
-def render(params, ctx_at, ctx_name, skip, as_view, first='self', lead=None, fname='f'):
+def render(params, ctx_at, ctx_name, skip, as_view, first='self', lead=None, fname='f', extras=None):
     """params: [(name, kind, has_default)]; ctx inserted at index ctx_at among the positional-or-keyword ones (or KO if beyond)"""
     plist = list(params)
     if ctx_at is not None and not as_view:
@@ -61,15 +61,22 @@ def render(params, ctx_at, ctx_name, skip, as_view, first='self', lead=None, fna
     if lead:
         parts.append(lead)          # a parameter the wrapper supplies itself and hides from the published signature
     seen_default = False
-    for name, kind, dflt in plist:
+    extras = extras or {}
+    for idx, (name, kind, dflt) in enumerate(plist):
         if kind == 'KO' and not star:
-            parts.append('*')
+            # 'variadic': a *rest parameter sits between the positional and the keyword-only ones; it is no by-name parameter
+            parts.append('*rest' if extras.get('variadic') else '*')
             star = True
         if kind == 'PK' and seen_default and not dflt:
             dflt = True        # keep the signature legal; ctx then simply has a (never used) default
         if kind == 'PK' and dflt:
             seen_default = True
-        parts.append(name + (": int = 0" if dflt else ': int'))
+        # 'nullable': every second REQUIRED parameter is annotated Optional[int]: nullable is not the same as "may be omitted"
+        ann = 'typing.Optional[int]' if (extras.get('nullable') and not dflt and idx % 2 == 0) else 'int'
+        parts.append(name + (f": {ann} = 0" if dflt else f': {ann}'))
+    if extras.get('variadic') and not star:
+        parts.append('*rest')
+        star = True
     if skip:
         if not star:
             parts.append('*')
@@ -113,7 +120,7 @@ def make_validator(name, pred):
     return vpd.PydanticValidator(coerce=False, exclude_param=pred, extra='allow')
 
 
-def run_method(ctx, params, ctx_at, positional, skip, style, validator='base'):
+def run_method(ctx, params, ctx_at, positional, skip, style, validator='base', extras=None):
     params = [tuple(p) for p in params]
     as_view = style.startswith('view')
     ctx_name = 'ctx'
@@ -121,15 +128,21 @@ def run_method(ctx, params, ctx_at, positional, skip, style, validator='base'):
         ctx.skip('positional-context-must-be-first')
         return
     ctx.hit('style:' + style)
+    extras = dict(extras or {})
+    if validator != 'base':
+        extras['variadic'] = False      # *args under the pydantic validator is the known finding D4 (C04), not a documentation matter
+    for k_, v_ in extras.items():
+        if v_:
+            ctx.hit('signature:' + k_)
     if style == 'wrapped':
         # a decorator that injects `session` and publishes the narrowed signature through __signature__
-        src = render(params, ctx_at, ctx_name, skip, False, lead='session', fname='_inner') + (
+        src = render(params, ctx_at, ctx_name, skip, False, lead='session', fname='_inner', extras=extras) + (
             "\n\n@functools.wraps(_inner)\ndef f(*args, **kwargs):\n    return _inner('SESSION', *args, **kwargs)\n\n"
             "_sig = inspect.signature(_inner)\n"
             "f.__signature__ = _sig.replace(parameters=[p for p in _sig.parameters.values() if p.name != 'session'])")
     else:
         first = {'view': 'self', 'view-static': None, 'view-class': 'cls'}.get(style, 'self')
-        src = render(params, ctx_at, ctx_name, skip, as_view, first=first)
+        src = render(params, ctx_at, ctx_name, skip, as_view, first=first, extras=extras)
         if style == 'view-static':
             src = '@staticmethod\n' + src
         elif style == 'view-class':
@@ -138,8 +151,9 @@ def run_method(ctx, params, ctx_at, positional, skip, style, validator='base'):
         """marker annotation of injected (excluded) parameters"""
     import functools
     import inspect
+    import typing
     ns = {'ViewMixin': pjrpc.server.ViewMixin, '__name__': 'vmon_c17_programs', 'Injected': Injected, 'functools': functools,
-          'inspect': inspect}
+          'inspect': inspect, 'typing': typing}
     if skip is True:
         skip = 'by-name'
     pred = {None: None, False: None,
@@ -208,12 +222,16 @@ def run_method(ctx, params, ctx_at, positional, skip, style, validator='base'):
         req2 = [n for n in names2 if n in base_required or (n == ctx_name and _ctx_required(ns['f'], ctx_name))]
         targets.append(('f2', m2, names2, req2))
         ctx.hit('twin-registration')
-    universe = base_names + ['zz'] + ([ctx_name] if ctx_at is not None and not as_view else []) + (['skip'] if skip else [])
+    universe = base_names + ['zz'] + ([ctx_name] if ctx_at is not None and not as_view else []) + (['skip'] if skip else []) + \
+        (['rest'] if extras.get('variadic') else [])
     for kind in ('openapi', 'openapi30', 'openrpc'):
         fam = f'{kind}:{style}'
         wit = dict(source=src, style=style, context_position=ctx_at, context_positional=positional, exclusion=skip or None,
                    document=kind, validator=vname, view_context_name=view_ctx if as_view else None)
         cls0 = (src, style, positional, kind, vname)
+        if extras.get('variadic') and vname != 'base':
+            # pydantic models of *rest parameters are another matter (C14): the documents are judged, acceptance under the base validator
+            pass
         if ctx_at is not None:
             ctx.hit(f'{kind}:context')
             if ctx_at > 0:
@@ -306,7 +324,7 @@ def run_method(ctx, params, ctx_at, positional, skip, style, validator='base'):
 
 def _sig_names(fn):
     import inspect
-    return list(inspect.signature(fn).parameters)
+    return [n for n, p in inspect.signature(fn).parameters.items() if p.kind in (p.POSITIONAL_OR_KEYWORD, p.KEYWORD_ONLY)]
 
 
 def _ctx_required(fn, name):
@@ -360,8 +378,9 @@ def gen(ctx):
                         continue
                     if not full and k % 3 and not (ctx_at not in (None, 0)):
                         continue
+                    ex = {'variadic': (k // 5) % 4 == 0 and style in ('def', 'view'), 'nullable': k % 4 == 1}
                     yield 'method', dict(params=ps, ctx_at=ctx_at, positional=positional, skip=skip, style=style,
-                                         validator=VALIDATORS[(k // 2) % 4] if k % 3 == 0 else 'base')
+                                         validator=VALIDATORS[(k // 2) % 4] if k % 3 == 0 else 'base', extras=ex)
 
 
 KINDS = {'method': run_method}
